@@ -542,6 +542,7 @@ func c13Forge(rt *rapid.T, c *c13Chain, idx int) (f c13Forgery) {
 
 		// a fabricated previous with the right suffrage height and block height but another content
 		choices = append(choices, c13FakeState(realPrev.Height(), base.Height(f.Target-1), realPrev.Previous(), label+"p", nFake))
+		choices = append(choices, nil) // no previous at all for a non-genesis proof
 		i := rapid.IntRange(0, len(choices)-1).Draw(rt, "prevChoice")
 		f.Prev = choices[i]
 		f.Detail += fmt.Sprintf(" prev=%d/%d", i, len(choices))
@@ -723,6 +724,10 @@ func c13Judge(rt *rapid.T, r *ev.Rec, c *c13Chain, f c13Forgery) {
 		case !follows:
 			sh, _ := c13SufHeight(st)
 			ph, _ := c13SufHeight(f.Prev)
+
+			if f.Prev == nil {
+				r.Violation(rt, "previous-linkage", "%s: accepted without any previous state although the block is not genesis", desc)
+			}
 
 			r.Violation(rt, "previous-linkage", "%s: accepted although the state does not directly follow the given previous state (state.previous=%s previous.hash=%s, suffrage heights %d after %d, block heights %d after %d)",
 				desc, st.Previous(), f.Prev.Hash(), sh, ph, st.Height(), f.Prev.Height())
